@@ -180,5 +180,11 @@ fixed('F-DOUBLEBOM', ['C12'], '8760c83', 'the constructor stripped a byte order 
 fixed('F-BIGINT', ['C08'], 'dcd88d0', 'a number default with more digits than int() converts (4301 and more on Python 3.11+) escaped from PyDBML.parse as ValueError',
       {'C08': dict(text='Table t {\n  x int [default: ' + '1' * 4301 + ']\n}\n', gen='regression')}, 'pydbml/definitions/column.py:number_literal parse action')
 
+sb = ASchema(enums=[AEnum('public', 'e', [AEnumItem('a')])])
+sc = ASchema(enums=[AEnum('public', 'e', [AEnumItem('a', comment='fs\x1cz')])])
+opened('F-LINESEP', ['C14'], 'a comment containing a character that str.splitlines() treats as a line boundary (FF, VT, FS/GS/RS, NEL, U+2028, U+2029) gains indentation after it when its element is rendered inside an indented block (textwrap.indent), so the DBML output re-parses to a different comment',
+       {'C14': dict(arm='capture', text='Enum e {\n a // fs\x1cz\n}\n', schema=model.to_json(sb), commented=model.to_json(sc))},
+       'pydbml/renderer/dbml/default/*.py, sql/default/table.py, enum.py (textwrap.indent)', kind='local')
+
 json.dump({'findings': F}, open(os.path.join(ROOT, 'known_findings.json'), 'w'), indent=1, ensure_ascii=False)
 print(len(F), 'findings written')
